@@ -32,7 +32,14 @@ import (
 	"verif/internal/rast"
 )
 
-func TestMain(m *testing.M) { harness.Main(m, "C18") }
+func TestMain(m *testing.M) {
+	// ivg.DestinationLogger and raster.RasterizerLogger print every call to os.Stdout: park it
+	// (set once, before any goroutine starts).
+	if f, err := os.OpenFile(os.DevNull, os.O_WRONLY, 0); err == nil {
+		os.Stdout = f
+	}
+	harness.Main(m, "C18")
+}
 
 type Job struct {
 	Kind  string `json:"kind"`
@@ -47,7 +54,7 @@ type Case struct {
 	Streams []ops.Hex `json:"streams"` // generated graphics shared by all goroutines
 }
 
-var jobKinds = []string{"render", "transcode", "disassemble", "viewbox", "generate", "resolve", "aspect", "color1", "options", "pathdata", "recorder", "zeroenc", "validate", "keepmeta", "reuseenc", "reuseenc", "manystops", "nestedoption"}
+var jobKinds = []string{"render", "transcode", "disassemble", "viewbox", "generate", "resolve", "aspect", "color1", "options", "pathdata", "recorder", "zeroenc", "validate", "keepmeta", "reuseenc", "reuseenc", "manystops", "nestedoption", "logged", "sharedramp"}
 
 // shared state: one palette array read by everybody
 var sharedPalette = func() [64]color.RGBA {
@@ -113,6 +120,16 @@ var sharedStops, sharedStopsCopy = func() ([]generate.GradientStop, []generate.G
 		a = append(a, generate.GradientStop{Offset: float32(i) / 59, Color: c})
 	}
 	return a, append([]generate.GradientStop{}, a...)
+}()
+
+// sharedRamp: colour ranges built once (hard steps included: stops that coincide, at the start
+// and further in) and assigned to the Ranges field of a Gradient value per goroutine.
+var sharedRamp, sharedRampCopy = func() ([]render.Range, []render.Range) {
+	st := func(o float64, r, g, b, a uint16) render.Stop {
+		return render.Stop{Offset: o, RGBA64: color.RGBA64{R: r, G: g, B: b, A: a}}
+	}
+	a := render.AppendRanges(nil, []render.Stop{st(0, 0xffff, 0, 0, 0xffff), st(0, 0, 0xffff, 0, 0xffff), st(0.25, 0, 0, 0xffff, 0xffff), st(0.5, 0x8000, 0x8000, 0, 0x8000), st(0.5, 0, 0, 0, 0), st(1, 0xffff, 0xffff, 0xffff, 0xffff)})
+	return a, append([]render.Range{}, a...)
 }()
 
 func runJob(w *worker, j Job, inputs [][]byte) uint64 {
@@ -188,6 +205,28 @@ func runJob(w *worker, j Job, inputs [][]byte) uint64 {
 	case "viewbox":
 		vb, err := decode.DecodeViewBox(in)
 		return hash([]byte(fmt.Sprint(vb, err)))
+	case "logged":
+		// the logging wrappers are destination objects like any other (their output is parked)
+		rec := &ops.Recorder{}
+		err := decode.Decode(&ivg.DestinationLogger{Destination: rec, Alt: j.Param%2 == 0}, in)
+		rr := &rast.Recorder{}
+		var r render.Renderer
+		r.SetRasterizer(&raster.RasterizerLogger{Rasterizer: rr}, image.Rect(0, 0, 16+j.Param%48, 24))
+		err2 := decode.Decode(&r, in)
+		return hash([]byte(fmt.Sprint(rec.Ops)), []byte(fmt.Sprint(err, err2, len(rr.Calls))))
+	case "sharedramp":
+		// Gradient values of one's own over a ramp every goroutine shares: At is a reader
+		var px []byte
+		for k := 0; k < 8; k++ {
+			g := render.Gradient{Shape: render.Shape(k / 4), Spread: render.Spread(k % 4), Pix2Grad: render.Aff3{1.0 / 16, 0, -0.25 - float64(j.Param%4)/8, 0, 1.0 / 16, -0.5}, Ranges: sharedRamp, First: color.RGBA64{R: 0xffff, A: 0xffff}, Last: color.RGBA64{R: 0xffff, G: 0xffff, B: 0xffff, A: 0xffff}}
+			for y := 0; y < 12; y++ {
+				for x := 0; x < 32; x++ {
+					r, gg, b, a := g.At(x, y).RGBA()
+					px = append(px, byte(r>>8), byte(gg>>8), byte(b>>8), byte(a>>8))
+				}
+			}
+		}
+		return hash(px)
 	case "manystops":
 		// a gradient of 17-58 stops written by a Generator straight into a Renderer, from a stop
 		// list (colours of several models) that every goroutine shares
@@ -421,6 +460,11 @@ func checkConcurrent(c Case) error {
 			return harness.Violatef("c18/stops-modified", "the shared caller-supplied gradient stop list was modified: stop %d is now %#v", i, sharedStops[i])
 		}
 	}
+	for i := range sharedRamp {
+		if sharedRamp[i] != sharedRampCopy[i] {
+			return harness.Violatef("c18/ranges-modified", "the colour ranges shared by several Gradient values were modified: range %d is now %+v", i, sharedRamp[i])
+		}
+	}
 	if sharedPalette != palCopy {
 		return harness.Violatef("c18/palette-modified", "the shared caller-supplied palette was modified")
 	}
@@ -430,7 +474,7 @@ func checkConcurrent(c Case) error {
 	return nil
 }
 
-var subConc = harness.Define("concurrent", "N in {2,4,8,16,32} goroutines x GOMAXPROCS in {2,4,16}, each running a generated list of independent jobs (Decode->Renderer->raster/vec, Decode->Encoder, Disassemble, DecodeViewBox, Generator->Encoder, Color.Resolve, AspectMeet/Slice, DecodeColor1, Decode with palette options, Decode without a Destination and an option that looks at the metadata, ParsePathData, Decode->recorder, zero-value Encoder, the goroutine's own Encoder Reset for graphic after graphic with metadata other goroutines use too, a caller keeping the metadata handed to its option, 17-58-stop gradients from one shared stop list of several colour models through Generator->Renderer); the concurrent phase runs before the serial reference, so the first case of every process meets the packages cold over shared corpus graphics, generated streams, one shared palette and the package-level defaults, built with -race: no race report, every result equals the serial result, shared inputs and package variables unchanged; non-trivial = at least two goroutines share an input", checkConcurrent)
+var subConc = harness.Define("concurrent", "N in {2,4,8,16,32} goroutines x GOMAXPROCS in {2,4,16}, each running a generated list of independent jobs (Decode->Renderer->raster/vec, Decode->Encoder, Disassemble, DecodeViewBox, Generator->Encoder, Color.Resolve, AspectMeet/Slice, DecodeColor1, Decode with palette options, Decode without a Destination and an option that looks at the metadata, ParsePathData, Decode->recorder, zero-value Encoder, the goroutine's own Encoder Reset for graphic after graphic with metadata other goroutines use too, a caller keeping the metadata handed to its option, 17-58-stop gradients from one shared stop list of several colour models through Generator->Renderer, Decode through DestinationLogger and RasterizerLogger with stdout parked, Gradient values over one shared list of colour ranges with hard steps); the concurrent phase runs before the serial reference, so the first case of every process meets the packages cold over shared corpus graphics, generated streams, one shared palette and the package-level defaults, built with -race: no race report, every result equals the serial result, shared inputs and package variables unchanged; non-trivial = at least two goroutines share an input", checkConcurrent)
 
 func TestConcurrent(t *testing.T) {
 	all := corpus.All()
